@@ -44,3 +44,77 @@ lemma GasUsedBound(gasLimit int, leftover int, refund int, m int)
     ensures imax(dec_trunc(dec_mul(dec_of(gasLimit), m)), gasLimit - leftover - refund) <= gasLimit
     ensures imax(dec_trunc(dec_mul(dec_of(gasLimit), m)), gasLimit - leftover - refund) >= 0
 @*/
+
+/*@
+// ---- helpers of the state transition without effect on the fee flow (assumed: x/evm/statedb and go-ethereum EVM)
+func (*Keeper).NewEVM
+    trusted
+    pure
+    ensures result != nil
+func (*Keeper).GetEthIntrinsicGas
+    trusted
+    pure
+func (Keeper).GetMinGasMultiplier
+    trusted
+    pure
+    ensures result >= 0 && result <= dec_one()
+func (Keeper).Precompiles
+    trusted
+    pure
+func (github.com/haqq-network/haqq/x/evm/types.Params).GetActivePrecompilesAddrs
+    trusted
+    pure
+func (github.com/haqq-network/haqq/x/evm/types.Params).HasCustomPrecompiles
+    trusted
+    pure
+func github.com/haqq-network/haqq/x/evm/statedb.New
+    trusted
+    pure
+    ensures result != nil
+func (*github.com/haqq-network/haqq/x/evm/statedb.StateDB).GetRefund
+    trusted
+    pure
+func (*github.com/haqq-network/haqq/x/evm/statedb.StateDB).Logs
+    trusted
+    pure
+func (*github.com/haqq-network/haqq/x/evm/statedb.StateDB).SetNonce
+    trusted
+    pure
+func (*github.com/haqq-network/haqq/x/evm/statedb.StateDB).PrepareAccessList
+    trusted
+    pure
+func (*github.com/haqq-network/haqq/x/evm/statedb.StateDB).Commit
+    trusted
+    modifies bank_bal
+func github.com/haqq-network/haqq/x/evm/types.NewLogsFromEth
+    trusted
+    pure
+
+// C07: gasUsed is the larger of the EVM gas consumed after refunds and minGasMultiplier x gasLimit, and never exceeds
+// gasLimit. The interpreter call itself is unknown code: its leftover-gas result is a free value (ret(Call/Create, ..)).
+func (*Keeper).ApplyMessageWithConfig
+    let gas = msg_gas(msg)
+    let left = ite(msg_to(msg) == nil, ret(Create, 1, 2), ret(Call, 1, 1))
+    let consumed = gas - left
+    let quot = ite(ret(IsLondon, 1, 0), 5, 2)
+    let refund = imin(consumed / quot, ret(GetRefund, 1, 0))
+    let floor = dec_trunc(dec_mul(dec_of(gas), ret(GetMinGasMultiplier, 1, 0)))
+    modifies bank_bal
+    requires cfg: cfg != nil && cfg.ChainConfig != nil
+    // the gas limit of a transaction in a block is bounded by the block gas limit (int64 MaxGas): checked by the ante handler
+    requires gaslimit: msg_gas(msg) <= 9223372036854775807
+    ensures gasused: result.1 == nil ==> result.0 != nil && result.0.GasUsed == imax(floor, consumed - refund)
+    ensures bounded: result.1 == nil ==> result.0.GasUsed <= gas
+    // minGasMultiplier <= 1: the floor is at most the gas limit, so neither later overflow check can fire
+    call TruncateInt use MulAtMostOneC07(msg_gas(msg), ret(GetMinGasMultiplier, 1, 0))
+    call LegacyMaxDec use MulAtMostOneC07(msg_gas(msg), ret(GetMinGasMultiplier, 1, 0))
+    call LegacyMaxDec requires floor_le_limit: dec_mul(dec_of(msg_gas(msg)), ret(GetMinGasMultiplier, 1, 0)) >= 0 && dec_mul(dec_of(msg_gas(msg)), ret(GetMinGasMultiplier, 1, 0)) <= dec_of(msg_gas(msg))
+    unreachable return: return nil, errorsmod.Wrapf(types.ErrGasOverflow, "minimumGasUsed(%s) is not a uint64", minimumGasUsed.TruncateInt().String())
+    // after the refund has been added back, leftover gas cannot exceed the limit: the second overflow check is dead code
+    unreachable return: return nil, errorsmod.Wrapf(types.ErrGasOverflow, "message gas limit < leftover gas (%d < %d)", msg.Gas(), leftoverGas)
+    allow frame
+
+lemma MulAtMostOneC07(w int, m int)
+    requires w >= 0 && m >= 0 && m <= dec_one()
+    ensures dec_mul(dec_of(w), m) >= 0 && dec_mul(dec_of(w), m) <= dec_of(w)
+@*/
